@@ -267,6 +267,32 @@ fn gen_c06(rng: &mut Rng, ctx: &mut Ctx, rep: &mut Report, emit: Emit) {
         // the 3-byte strings with an array/tag lead, which are the ones that get past the first visitor
         for a in [0x80u8, 0x81, 0x82, 0x88, 0x9f, 0xc0, 0xd8, 0x98, 0xbf, 0x5f, 0x7f] { for b in 0..=255u8 { for c in (0..=255u8).step_by(3) { emit(ctx, rep, format!("rx {}", hex(&[a, b, c]))); } } }
     }
+    // block-type-specific data of the block types the decoder looks into (previous node 6, bundle age 7, hop
+    // count 10): EVERY initial byte (all major types, all additional-information values incl. the reserved 28..30
+    // and the indefinite 31) followed by exactly k bytes, k around every argument width
+    {
+        let mut b0 = Bundle::default();
+        b0.primary.destination = EndpointID::with_dtn("d/x").unwrap();
+        b0.primary.source = EndpointID::with_dtn("s/y").unwrap();
+        b0.primary.creation_timestamp = bp7::CreationTimestamp::with_time_and_seq(1000, 0);
+        b0.canonicals.push(new_canonical_block(1, 1, 0, CanonicalData::Data(vec![1])));
+        let base = b0.to_cbor();
+        if let Some(blocks) = cborx::bundle_blocks(&base) {
+            let at = blocks[0].1;
+            for bt in [6u8, 7, 10] {
+                for hb in 0..=255u8 {
+                    for k in [0usize, 1, 2, 3, 4, 5, 8, 9, 16, 17, 32, 33, 64, 128, 129] {
+                        if !ctx.tier_thorough && (hb as usize + k) % 2 != 0 && hb & 31 < 24 { continue; }
+                        let mut blk = vec![0x85, bt, 0x02, 0x00, 0x00];
+                        blk.extend(cbor_head(2, 1 + k as u64)); blk.push(hb); blk.extend((0..k).map(|i| if i % 7 == 3 { 0xff } else { (i as u8).wrapping_mul(29) }));
+                        let mut v = base.clone(); v.splice(at..at, blk);
+                        emit(ctx, rep, format!("rx {}", hex(&v)));
+                    }
+                }
+            }
+            rep.exhaustive_parts.push("extension-block data for block types 6, 7, 10: every initial byte x 15 body lengths".into());
+        }
+    }
     let n = ctx.n(20_000, 2_000_000);
     for i in 0..n {
         let wfb = i % 4 != 0;
@@ -360,7 +386,10 @@ fn inject(class: &str, base: &[u8], rng: &mut Rng) -> Option<Vec<u8>> {
                 _ => { if scheme != 2 { return None; } let ic = cborx::array_children(base, ec[1].0)?; v.splice(ic[0].0..ic[0].1, [0x00]); }
             }
         }
-        "crc-length" => { if !has_crc { return None; } let last = ch[n - 1]; let w = if crc_t == 1 { 2 } else { 4 }; let nw = *rng.pick(&[0usize, 1, 3, 5, 8].iter().filter(|x| **x != w).cloned().collect::<Vec<_>>()); let mut f = vec![0x40 | nw as u8]; f.extend(std::iter::repeat(0xaa).take(nw)); v.splice(last.0..last.1, f); }
+        "crc-length" => { if !has_crc { return None; } let last = ch[n - 1]; let w = if crc_t == 1 { 2 } else { 4 }; // every wrong length near the right one, and the right length plus multiples of 256 / 65536 (a length compared
+            // after a narrowing conversion looks right again there)
+            let nw = *rng.pick(&[0usize, 1, 2, 3, 4, 5, 6, 8, 16, 254, 255, 256, 257, 258, 259, 260, 261, 512 + w, 768 + w, 1024 + w, 65_536 + w, 65_536, 131_072 + w].iter().filter(|x| **x != w).cloned().collect::<Vec<_>>());
+            let mut f = cbor_head(2, nw as u64); f.extend((0..nw).map(|i| (i as u8).wrapping_mul(37) ^ 0xaa)); v.splice(last.0..last.1, f); }
         "crc-presence" => {
             if has_crc { let last = ch[n - 1]; v.drain(last.0..last.1); set_count(&mut v, r.0, n - 1); }
             else if crc_t == 0 { v.splice(r.1..r.1, [0x42, 0, 0]); set_count(&mut v, r.0, n + 1); } else { return None; }
@@ -498,6 +527,29 @@ fn gen_c05(rng: &mut Rng, ctx: &mut Ctx, rep: &mut Report, emit: Emit) {
         let oh = hex(&orig);
         emit(ctx, rep, format!("cor {} {}", oh, oh));
         if let Some(blocks) = cborx::bundle_blocks(&orig) { for r in &blocks { for i in [r.0 + 1, r.1 - 1] { let mut v = orig.clone(); v[i] ^= 1; emit(ctx, rep, format!("cor {} {}", hex(&v), oh)); } } }
+    }
+    // the sender's bundle has a history: CRCs computed (encoded once, or decoded from the wire), THEN fields of the
+    // primary block / of a canonical block changed, then encoded again — what reaches the receiver uncorrupted must
+    // pass the check (a checksum left over from before the change would not)
+    for k in 0..ctx.n(400, 40_000) {
+        let mut b = gen_bundle(rng, &Opts { wf: true, max_blocks: 4 });
+        b.set_crc(if k % 2 == 0 { 1 } else { 2 });
+        let first = b.to_cbor();
+        if k % 3 == 0 { if let Ok(d) = Bundle::try_from(first.as_slice()) { b = d; } }
+        for _ in 0..1 + rng.below(3) {
+            match rng.below(9) {
+                0 => b.primary.lifetime = std::time::Duration::from_millis(rng.u64b()),
+                1 => b.primary.destination = gen_eid_wf(rng),
+                2 => b.primary.report_to = gen_eid_wf(rng),
+                3 => { b.primary.bundle_control_flags |= 1; b.primary.fragmentation_offset = rng.below(1000); b.primary.total_data_length = 1000 + rng.below(1000); }
+                4 => b.primary.creation_timestamp = bp7::CreationTimestamp::with_time_and_seq(rng.u64b(), rng.below(100)),
+                5 => b.primary.bundle_control_flags ^= *rng.pick(&[0x4u64, 0x20, 0x40, 0x4000, 0x10000]),
+                6 => { if let Some(c) = b.canonicals.first_mut() { c.block_control_flags ^= 1 << rng.below(5); } }
+                7 => { let n = b.canonicals.len(); if n > 0 { let j = rng.below(n as u64) as usize; let d = b.canonicals[j].data().clone(); if let CanonicalData::Data(mut x) = d { x.push(rng.next() as u8); b.canonicals[j].set_data(CanonicalData::Data(x)); } else if let CanonicalData::BundleAge(a) = d { b.canonicals[j].set_data(CanonicalData::BundleAge(a.wrapping_add(1))); } } }
+                _ => { if let Some(c) = b.canonicals.last_mut() { c.block_number = c.block_number.wrapping_add(rng.below(3)); } }
+            }
+        }
+        if let Some(orig) = no_panic(|| b.to_cbor()) { let oh = hex(&orig); emit(ctx, rep, format!("cor {} {}", oh, oh)); }
     }
     rep.exhaustive_parts.push("every single-bit flip inside every block of every generated bundle".into());
 }
